@@ -40,6 +40,7 @@ Matches(g, p) ==
     [] g.form = "name"   -> p.base = g.arg
     [] g.form = "exact"  -> p = g.arg
     [] g.form = "all"    -> TRUE
+    [] g.form = "set"    -> p \in g.arg          \* (trace validation: the logged allow / ignore decisions)
 
 MatchAny(gs, p) == \E g \in gs : Matches(g, p)
 
